@@ -68,6 +68,10 @@ pub fn contexts(level: u8) -> Vec<(Vec<u8>, Vec<u8>)> {
 			out.push((domains::b(p), domains::b(s)));
 		}
 	}
+	// ... and of 1, 3 and 4 bytes (every relation between the lengths of splice, old text and tail)
+	for s in ["?", "#ff", "?q#f"[..3].to_string().as_str(), "?qqq"] {
+		out.push((domains::b("//h"), domains::b(s)));
+	}
 	out
 }
 
